@@ -28,12 +28,14 @@ const (
 	obsMerkleDupTail   = "merkle.duplicate_tail_collision(odd list + copy of last leaf)"
 	obsSigShortPanics  = "ecdsa.verify_panics_on_signature_shorter_than_64_bytes"
 	obsSigMalleable    = "ecdsa.high_s_twin_signature_accepted"
+	obsBlockSetTx      = "neoBlock.hash_binds_tx_hashes_given_to_NewBlock_not_the_SetTransactions_argument"
+	obsBlockZero       = "neoBlock.hash_is_zero_until_SetTransactions_is_called"
 )
 
 var observationsNotAsserted = []string{
 	obsSubSecond, obsCVNewView, obsCVReason, obsRecPreCommit, obsRecEnvelope, obsRecCompact,
 	obsPreCommitDecode, obsAMEVDecode, obsRecCommitView, obsRecNoHashNoResp, obsMerkleDupTail,
-	obsSigShortPanics, obsSigMalleable,
+	obsSigShortPanics, obsSigMalleable, obsBlockSetTx, obsBlockZero,
 }
 
 func notAsserted(name string) bool {
